@@ -127,24 +127,6 @@ func (self AnalyzedBoolLiteralExpression) Constant() bool    { return true }
 // String literal
 //
 
-// TODO: add more escapes
-func escapeHmsString(input string) string {
-	output := input
-
-	escapes := map[string]string{
-		"\n": "\\n",
-		"\"": "\\\"",
-		"\t": "\\n",
-	}
-
-	for from, to := range escapes {
-		output = strings.ReplaceAll(output, from, to)
-	}
-
-	return output
-
-}
-
 type AnalyzedStringLiteralExpression struct {
 	Value string
 	Range errors.Span
@@ -155,7 +137,7 @@ func (self AnalyzedStringLiteralExpression) Kind() ExpressionKind {
 }
 func (self AnalyzedStringLiteralExpression) Span() errors.Span { return self.Range }
 func (self AnalyzedStringLiteralExpression) String() string {
-	return fmt.Sprintf("\"%s\"", escapeHmsString(self.Value))
+	return fmt.Sprintf("\"%s\"", util.EscapeString(self.Value))
 }
 func (self AnalyzedStringLiteralExpression) Type() Type     { return NewStringType(self.Range) }
 func (self AnalyzedStringLiteralExpression) Constant() bool { return true }
